@@ -249,9 +249,10 @@ Definition admissible_cross (dfs : list Z) (thr : option Q) (E : list edge) (t :
     forall d, In d dfs -> ~ (contains_flag t cv d = true /\ contains_flag t cw d = true).
 
 (* ---------------------------------------------------------------- sequential specification (tie-free) *)
-(* The textbook single-best-link procedure: take the usable edges by decreasing probability and
-   merge the two clusters of an edge iff they share no duplicate-free dataset.  For pairwise
-   distinct probabilities the SQL loop computes exactly this partition (C12_refines_greedy). *)
+(* The textbook single-best-link procedure: take the usable edges by decreasing rank and merge
+   the two clusters of an edge iff they share no duplicate-free dataset.  When the ORDER BY of
+   the windows ranks no two edges equal, the SQL loop computes exactly this partition
+   (C12_refines_greedy, C12_tiebreak_refines_greedy). *)
 Section Greedy.
   Variable dfs : list Z.
   Variable nodes : list node.
@@ -271,17 +272,60 @@ Definition is_node (nodes : list node) (v : Z) : bool := existsb (fun n => n_id 
 Definition usable (thr : option Q) (nodes : list node) (e : edge) : bool :=
   above thr (e_p e) && is_node nodes (e_l e) && is_node nodes (e_r e).
 
-(* insertion sort by decreasing probability *)
-Fixpoint insert_desc (e : edge) (l : list edge) : list edge :=
+(* ---------------------------------------------------------------- the ORDER BY of the two windows *)
+(* A rank order compares the (node_id, neighbour, match_probability) triples of two rows:
+   `le e1 e2 = true` iff e2 is ranked at least as high as e1 by the ORDER BY clause. *)
+Definition rank_le := edge -> edge -> bool.
+Definition row_edge (r : crow) : edge := (c_node r, c_nb r, c_p r).
+Definition flip (e : edge) : edge := (e_r e, e_l e, e_p e).
+Definition e_lo (e : edge) : Z := Z.min (e_l e) (e_r e).
+Definition e_hi (e : edge) : Z := Z.max (e_l e) (e_r e).
+
+(* order by match_probability desc *)
+Definition le_prob : rank_le := fun e1 e2 => Qle_bool (e_p e1) (e_p e2).
+(* order by match_probability desc, least(node_id, neighbour), greatest(node_id, neighbour)
+   (both ascending): an edge and its reverse get the same key in both windows *)
+Definition le_tiebreak : rank_le := fun e1 e2 =>
+  if Qeq_bool (e_p e1) (e_p e2)
+  then (e_lo e2 <? e_lo e1) || ((e_lo e2 =? e_lo e1) && (e_hi e2 <=? e_hi e1))
+  else Qle_bool (e_p e1) (e_p e2).
+
+(* what SQL guarantees about rank 1 under a given ORDER BY *)
+Definition rank1_ok_for (le : rank_le) (ch : chooser) : Prop :=
+  forall it k rows, rows <> [] ->
+    In (ch it k rows) rows /\ forall r, In r rows -> le (row_edge r) (row_edge (ch it k rows)) = true.
+
+(* a deterministic chooser for any rank order (first maximal row): when the order ranks no two
+   rows equal every legal chooser picks the same row, so X can compare lock-step *)
+Fixpoint argmax_le (le : rank_le) (best : crow) (rows : list crow) : crow :=
+  match rows with
+  | [] => best
+  | r :: t => argmax_le le (if le (row_edge r) (row_edge best) then best else r) t
+  end.
+Definition max_by (le : rank_le) : chooser :=
+  fun _ _ rows => match rows with [] => dummy_row | r :: t => argmax_le le r t end.
+
+(* no two rows of the edges table are ranked equal (for le_prob: pairwise distinct
+   probabilities; for le_tiebreak: no pair of records listed twice with the same probability) *)
+Definition strict_rank (le : rank_le) (E : list edge) : Prop :=
+  ForallOrdPairs (fun e1 e2 => ~ (le e1 e2 = true /\ le e2 e1 = true)) E.
+
+(* no pair of records is listed twice with the same probability (Splink's predictions list every
+   pair once): makes le_tiebreak strict *)
+Definition nodup_pairs (E : list edge) : Prop :=
+  ForallOrdPairs (fun e1 e2 => ~ ((e_p e1 == e_p e2)%Q /\ e_lo e1 = e_lo e2 /\ e_hi e1 = e_hi e2)) E.
+
+(* insertion sort by decreasing rank *)
+Fixpoint insert_desc (le : rank_le) (e : edge) (l : list edge) : list edge :=
   match l with
   | [] => [e]
-  | x :: t => if Qle_bool (e_p x) (e_p e) then e :: l else x :: insert_desc e t
+  | x :: t => if le x e then e :: l else x :: insert_desc le e t
   end.
-Fixpoint sort_desc (l : list edge) : list edge :=
-  match l with [] => [] | x :: t => insert_desc x (sort_desc t) end.
+Fixpoint sort_desc (le : rank_le) (l : list edge) : list edge :=
+  match l with [] => [] | x :: t => insert_desc le x (sort_desc le t) end.
 
-Definition greedy_clusters (dfs : list Z) (thr : option Q) (nodes : list node) (E : list edge) : lab :=
-  greedy dfs nodes (sort_desc (filter (usable thr nodes) E)).
+Definition greedy_clusters (le : rank_le) (dfs : list Z) (thr : option Q) (nodes : list node) (E : list edge) : lab :=
+  greedy dfs nodes (sort_desc le (filter (usable thr nodes) E)).
 
 (* ---------------------------------------------------------------- allowed-step membership (X, ties) *)
 (* rows of maximal probability in a partition: the candidates for rank 1 *)
